@@ -488,11 +488,13 @@ Qed.
 
 Lemma check_param_early_iff p : check_param_early p = true <-> real_param_early p.
 Proof.
-  unfold check_param_early, real_param_early. destruct p as [r o]. simpl. destruct r as [q|i|i], o as [z|]; split; try discriminate; try reflexivity.
+  unfold check_param_early, real_param_early. destruct p as [r o]. simpl. destruct r as [q|i|i|i], o as [z|]; split; try discriminate; try reflexivity.
   - intros _. split; [intros i H; discriminate|intros q0 _; discriminate].
   - intros [_ H]. exfalso. apply (H q eq_refl). reflexivity.
   - intros [H _]. specialize (H i eq_refl). discriminate.
   - intros _. split; [reflexivity|intros q H; discriminate].
+  - intros _. split; [intros j H; discriminate|intros q H; discriminate].
+  - intros _. split; [intros j H; discriminate|intros q H; discriminate].
   - intros _. split; [intros j H; discriminate|intros q H; discriminate].
   - intros _. split; [intros j H; discriminate|intros q H; discriminate].
 Qed.
